@@ -236,6 +236,42 @@ pub struct AllocStats {
     pub max_request: usize,
     pub peak_live: i64,
     pub total: u64,
+    /// deepest stack position (bytes below the point where the observation started) seen at a transport call
+    pub max_stack_depth: usize,
+}
+
+thread_local! {
+    static STACK_BASE: std::cell::Cell<usize> = std::cell::Cell::new(0);
+    static STACK_DEPTH: std::cell::Cell<usize> = std::cell::Cell::new(0);
+}
+
+/// start measuring stack depth from here (called where an observation starts)
+#[inline(never)]
+pub fn stack_mark() {
+    let here = 0u8;
+    STACK_BASE.with(|b| b.set(&here as *const u8 as usize));
+    STACK_DEPTH.with(|d| d.set(0));
+}
+
+/// called by the transport whenever the code under test reads or writes: how deep is the stack now?
+#[inline(never)]
+pub fn stack_probe() {
+    let here = 0u8;
+    let addr = &here as *const u8 as usize;
+    let base = STACK_BASE.with(|b| b.get());
+    if base != 0 && base > addr {
+        let depth = base - addr;
+        STACK_DEPTH.with(|d| {
+            if depth > d.get() {
+                d.set(depth)
+            }
+        });
+    }
+}
+
+fn stack_take() -> usize {
+    STACK_BASE.with(|b| b.set(0));
+    STACK_DEPTH.with(|d| d.replace(0))
 }
 
 /// The reference server runs inside the client's own read/write calls, on the same thread: its allocations
@@ -263,21 +299,28 @@ pub fn disarm_alloc() -> AllocStats {
         max_request: A_MAXREQ.with(|c| c.get()),
         peak_live: A_PEAK.with(|c| c.get()),
         total: A_TOTAL.with(|c| c.get()),
+        max_stack_depth: 0,
     }
 }
 
 /// Run f with panic and allocation monitors.
 pub fn observed<T>(f: impl FnOnce() -> T) -> (Result<T, PanicInfo>, AllocStats) {
     let r = guarded(|| {
+        stack_mark();
         arm_alloc();
         let v = f();
         let st = disarm_alloc();
         (v, st)
     });
+    let depth = stack_take();
     match r {
-        Ok((v, st)) => (Ok(v), st),
+        Ok((v, mut st)) => {
+            st.max_stack_depth = depth;
+            (Ok(v), st)
+        }
         Err(p) => {
-            let st = disarm_alloc();
+            let mut st = disarm_alloc();
+            st.max_stack_depth = depth;
             (Err(p), st)
         }
     }
